@@ -354,6 +354,8 @@ def install_solver_seams():
             s.unknown_sites.add(_stack_sig())
             s.trace("z3.check", k, "unknown", round(s.now, 6))
             return z3.unknown
+        if s.timers:
+            s.fire_due_timers(s.now + dur)  # a timer / alarm due while the call is in progress
         r = real_solver_check(self, *a)
         s.advance(dur)
         s.trace("z3.check", k, str(r), round(s.now, 6))
@@ -400,6 +402,8 @@ def install_solver_seams():
                     self._sim_model_override = sol.model()
             s.trace("opt.check", k, "unknown/" + flavour, round(s.now, 6))
             return z3.unknown
+        if s.timers:
+            s.fire_due_timers(s.now + dur)
         r = real_opt_check(self, *a)
         s.advance(dur)
         s.trace("opt.check", k, str(r), round(s.now, 6))
@@ -491,6 +495,70 @@ def install_timer_seam():
             return s is not None and self in s.timers
 
     threading.Timer = VTimer
+
+    # --- signal.setitimer / signal.alarm under the virtual clock -------------------------------
+    import signal as _signal
+
+    real_setitimer = _signal.setitimer
+    real_alarm = _signal.alarm
+    real_getitimer = _signal.getitimer
+    REAL.update(setitimer=real_setitimer, alarm=real_alarm)
+
+    class _Alarm:
+        """A pending virtual SIGALRM: when due, the handler installed for SIGALRM runs (it may raise)."""
+
+        def __init__(self, fire_at, interval):
+            self.fire_at = fire_at
+            self.interval = interval
+            counter[0] += 1
+            self.seq = counter[0]
+
+        def _run(self):
+            s = SIM
+            if self.interval and self.interval > 0:
+                nxt = _Alarm(self.fire_at + self.interval, self.interval)
+                s.timers.append(nxt)
+            h = _signal.getsignal(_signal.SIGALRM)
+            s.fire("sigalrm")
+            if callable(h):
+                h(_signal.SIGALRM, sys._getframe(1))
+            elif h == _signal.SIG_DFL:
+                raise HarnessError("virtual SIGALRM with the default action (would kill the process)")
+
+    def _pending_alarm(s):
+        return [t for t in s.timers if isinstance(t, _Alarm)]
+
+    def setitimer(which, seconds, interval=0.0):
+        s = SIM
+        if s is None or not s.active or which != _signal.ITIMER_REAL:
+            return real_setitimer(which, seconds, interval)
+        old = _pending_alarm(s)
+        prev = (max(0.0, old[0].fire_at - s.now), old[0].interval) if old else (0.0, 0.0)
+        for t in old:
+            s.timers.remove(t)
+        if seconds and seconds > 0:
+            s.timers.append(_Alarm(s.now + float(seconds), float(interval or 0.0)))
+            s.probe("virtual_itimers_armed")
+            s.trace("itimer.set", round(float(seconds), 6))
+        return prev
+
+    def alarm(seconds):
+        s = SIM
+        if s is None or not s.active:
+            return real_alarm(seconds)
+        prev = setitimer(_signal.ITIMER_REAL, float(seconds))
+        return int(prev[0] + 0.999999) if prev[0] else 0
+
+    def getitimer(which):
+        s = SIM
+        if s is None or not s.active or which != _signal.ITIMER_REAL:
+            return real_getitimer(which)
+        old = _pending_alarm(s)
+        return (max(0.0, old[0].fire_at - s.now), old[0].interval) if old else (0.0, 0.0)
+
+    _signal.setitimer = setitimer
+    _signal.alarm = alarm
+    _signal.getitimer = getitimer
 
 
 def install_deadline_probe():
